@@ -114,6 +114,9 @@ Ops(V) ==
                  ELSE CASE V.tl = "nil" -> ListTerm(<<NilT>>) [] V.tl = "atom" -> ListTerm(<<Foo>>) [] V.tl = "var" -> Err(InstErr)),
      OpR("arg1", IF n >= 1 THEN Yes(<<Ch(cs[1])>>) ELSE EmptyErr(V)),
      OpR("arg2", IF n >= 1 THEN Yes(<<rest>>) ELSE EmptyErr(V)),
+     (* walking down the list with arg/3, resp. =../2, cell by cell: the heads seen and the term left at the end *)
+     OpR("walk_arg", TC("w", <<LT(cs, NilT), tt>>)),
+     OpR("walk_univ", TC("w", <<LT(cs, NilT), tt>>)),
      OpR("head", IF n >= 1 THEN Yes(<<Ch(cs[1]), rest>>) ELSE IF V.tl = "var" THEN Yes(<<TV("_H"), TV("_R")>>) ELSE No),
      OpR("index", IF n >= 1 THEN ListTerm(<<TC("cons", <<Ch(cs[1])>>)>>)
                   ELSE CASE V.tl = "nil" -> ListTerm(<<TA("nil")>>) [] V.tl = "atom" -> ListTerm(<<TA("atom")>>)
